@@ -100,7 +100,7 @@ def parseN (tok : String) : Option MJ.Val.N :=
   | [form, v] =>
     if form = "flit" ∨ form = "f64" ∨ form = "sf64" then (parseHex v).map .f64
     else if form = "f32" ∨ form = "sf32" then (parseHex v).map (fun b => .f64 (f32ToF64 b))
-    else if form = "fsrc" then
+    else if form = "fsrc" ∨ form = "fexp" then
       match v.splitOn "=" with
       | [_, bits] => (parseHex bits).map .f64
       | _ => none
@@ -126,7 +126,8 @@ def showN : MJ.Val.N → String
   | n => s!"i:{n.int}"
 
 def isLiteralTok (tok : String) : Bool :=
-  tok.startsWith "lit:" || tok.startsWith "src:" || tok.startsWith "flit:" || tok.startsWith "fsrc:"
+  tok.startsWith "lit:" || tok.startsWith "src:" || tok.startsWith "flit:" || tok.startsWith "fsrc:" ||
+    tok.startsWith "fexp:"
 
 def allSome {α : Type} : List (Option α) → Option (List α)
   | [] => some []
